@@ -19,6 +19,7 @@ import (
 	"encoding/csv"
 	"fmt"
 	"io"
+	"sort"
 	"time"
 
 	"github.com/shopspring/decimal"
@@ -208,7 +209,20 @@ func (p *parser) parseBooking() error {
 }
 
 func (p *parser) addBalances() {
-	for k, bal := range p.balance {
+	// iterate in a fixed order (date, commodity): ranging over the map directly
+	// makes the order of the assertions of one date differ from run to run.
+	keys := make([]amounts.Key, 0, len(p.balance))
+	for k := range p.balance {
+		keys = append(keys, k)
+	}
+	sort.Slice(keys, func(i, j int) bool {
+		if !keys[i].Date.Equal(keys[j].Date) {
+			return keys[i].Date.Before(keys[j].Date)
+		}
+		return keys[i].Commodity.Name() < keys[j].Commodity.Name()
+	})
+	for _, k := range keys {
+		bal := p.balance[k]
 		p.builder.Add(&model.Assertion{
 			Date: k.Date,
 			Balances: []model.Balance{
